@@ -142,7 +142,7 @@ func RunC18A(t *testing.T) {
 		var msgIdx []int
 		for i, o := range ops {
 			switch o.Kind {
-			case OpBlock, OpAddAllowed, OpUpdateAllowed, OpSetBalance, OpReimport:
+			case OpBlock, OpFaultBlock, OpAddAllowed, OpUpdateAllowed, OpSetBalance, OpReimport:
 			case OpUpdateParams:
 				if !(o.Signer < 0 && o.SignerStr == "") && txSigner(o) >= 0 {
 					msgIdx = append(msgIdx, i)
@@ -248,7 +248,7 @@ func runWithDumps(a *AppA, ops []Op, skip map[int]bool) []string {
 			o = Op{Kind: "ghost"}
 		}
 		a.Feed(o)
-		if o.Kind == OpBlock {
+		if o.Kind == OpBlock || o.Kind == OpFaultBlock {
 			dump()
 		}
 	}
